@@ -46,6 +46,6 @@ InvInterchange ==
 \* both snake equations for the (multi-wire) codomain type of the register
 InvSnake ==
   LET D == t.cod IN Size(D) * Size(D) * Size(D) <= 4 * MaxSize =>
-     /\ MatThen(Whisker(D, CapOf(Rev(D)), <<>>), Whisker(<<>>, CupT(D), D)) = IdT(D)
-     /\ MatThen(Whisker(<<>>, CapOf(D), D), Whisker(D, CupT(Rev(D)), <<>>)) = IdT(D)
+     /\ MatThen(Whisker(D, CapOf(RevSeq(D)), <<>>), Whisker(<<>>, CupT(D), D)) = IdT(D)
+     /\ MatThen(Whisker(<<>>, CapOf(D), D), Whisker(D, CupT(RevSeq(D)), <<>>)) = IdT(D)
 =============================================================================
